@@ -9,6 +9,8 @@ import Gts.Model.Seq
 import Gts.Lemmas.Record
 import Gts.Lemmas.MarksOps
 import Gts.Lemmas.MarksCoords
+import Gts.Lemmas.MarkGuardOps
+import Gts.Spec.Read
 namespace Gts.C04
 open Gts Loc
 
@@ -243,6 +245,26 @@ theorem rotate_marks_partial (l : Loc) (n L : Int) (hL : 0 < L) (hn : 0 ≤ n)
   have nne : nonneg (expand l 0 n) = true := expand0_nonneg' l n hn hw hnn
   rw [normalize_marks_partial (expand l 0 n) L hL wfe nne h2]
   exact outerMarks_of_marks (expand_ins_marks_aux l 0 n hw hn h1)
+
+/-- … in particular under the hypotheses of `rotate_den_partial` plus duplicate-freeness and
+positions inside the sequence — the conditions under which the Go oracle evaluates the clause -/
+theorem rotate_marks_nodup_partial (l : Loc) (n L : Int) (hL : 0 < L) (hn : 0 ≤ n)
+    (hw : wf l = true) (hnn : nonneg l = true)
+    (hok : normOk L (expand l 0 n) = true)
+    (h1 : expandAbs l 0 n = false) (h2 : normalizeAbs (expand l 0 n) L = false)
+    (hin : denIn L (den l)) (hnd : (den l).Nodup) :
+    outerMarks (normalize (expand l 0 n) L) = outerMarks l := by
+  have a := guest_translate l n hw hnn hn h1
+  have wfe : wf (expand l 0 n) = true := (expand_ins l 0 n hw hn).2
+  have c := mapPos_refines (· % L) a
+  have e : mapPos (· % L) (mapPos (· + n) (den l)) = mapPos (rotMap n L) (den l) := by
+    simp [mapPos, rotMap, Function.comp_def]
+  rw [e] at c
+  have hnd2 : (mapPos (· % L) (den (expand l 0 n))).Nodup :=
+    Refines.nodup c (nodup_mapPos_rotMap n L hL _ hin hnd)
+  exact rotate_marks_partial l n L hL hn hw hnn
+    (expand0MarkAbs_of_nodup l n hw hnn hn h1 hnd)
+    (normalizeMarkAbs_of_nodup (expand l 0 n) L hL wfe hok h2 hnd2)
 
 /-- FULL STATEMENT for the coordinates without the property's proviso on ambiguous spans (false
 on the model, and on the code): `one-of(4.5)` on a circle of length 5 rotated by 1 becomes
